@@ -889,8 +889,8 @@ class Engine:
                 if elems is None or n == len(elems):
                     for s in frontier:
                         sx = s.copy()
-                        if elems is None and n == K:
-                            sx.truncated = True
+                        # leaving a for loop after n iterations is a complete execution for an iterable
+                        # of n elements (only cut `while` loops are marked truncated)
                         if stmt.orelse:
                             out.extend(self._run_body(fi, stmt.orelse, sx, depth))
                         else:
